@@ -283,7 +283,7 @@ func genSlSend(g *genCtx) {
 			case 'F':
 				r = rsp(fn, cmdNo, 0, bodyB)
 			case 'E':
-				r = rsp(fn, cmdNo, []byte{0xC1, 0xC9, 0xD4, 0xFF}[g.rng.Intn(4)], nil)
+				r = rsp(fn, cmdNo, finalErrorCode(g.rng), nil)
 			case 'B':
 				r = rsp(fn, cmdNo, 0xC0, nil)
 			case 'T':
